@@ -325,7 +325,7 @@ func TestProp_C07_Schedules(t *testing.T) {
 	}
 	budget := 60
 	if sim.Thorough() {
-		budget = 4000
+		budget = 2000
 	}
 	exhaustive := true
 	for vi, vp := range pairs {
@@ -445,7 +445,7 @@ func TestProp_C07_Random(t *testing.T) {
 		c := &AKECase{VA: vp[0], VB: vp[1], Trigger: rapid.IntRange(0, 3).Draw(rt, "trigger"), Who: rapid.IntRange(0, 2).Draw(rt, "who"), Pre: rapid.IntRange(0, 4).Draw(rt, "pre"), Other: rapid.IntRange(0, 1).Draw(rt, "other"), Reps: 0, // further triggers while the exchange is under way are "further user action", which the statement excludes (see DESIGN.md §10)
 			Choices: rapid.SliceOfN(rapid.IntRange(0, 2), 0, 20).Draw(rt, "choices"), Seed: rapid.IntRange(0, 50).Draw(rt, "seed")}
 		c.Reps = c.Other // (one further trigger, by the other side, where the choice vector says 2)
-		c.Frag = rapid.SampledFrom([]int{0, 0, 0, 70, 300}).Draw(rt, "frag")
+		c.Frag = rapid.SampledFrom([]int{0, 0, 0, 0, 0, 0, 0, 0, 70, 300}).Draw(rt, "frag")
 		c.Tags = rapid.Bool().Draw(rt, "tags")
 		if c.Who == 2 || c.Other == 1 {
 			c.Frag = 0 // (crossing commits, the open finding, are recognised on whole messages only)
